@@ -17,9 +17,47 @@ from . import speccheck
 PROP = "C12"
 
 
+def grid_stream(v, findings):
+    """the typed operator grid (harness/c12grid.py): static dtype vs exported dtype for every operator signature over every
+    column dtype, date / datetime included; deviations listed in known_findings.json (rules under "grid12") are attributed"""
+    import re
+
+    from . import c12grid
+
+    recs = c12grid.run_grid()
+    hist, known, new = {}, {}, {}
+    for g in recs:
+        key = f"{g['backend']}:{g['outcome']}"
+        hist[key] = hist.get(key, 0) + 1
+        if g["outcome"] not in ("mismatch", "export_error"):
+            continue
+        if g["outcome"] == "export_error" and ("no such function" in (g.get("msg") or "")):
+            hist["environment:sqlite-version"] = hist.get("environment:sqlite-version", 0) + 1
+            continue
+        owner = None
+        for f in findings:
+            for rule in f.get("grid12", []):
+                if re.search(rule["case"], g["case"]) and g["backend"] in rule["backends"] and g["outcome"] == rule["outcome"] \
+                        and (rule.get("exc") is None or rule["exc"] == g.get("exc")):
+                    owner = f
+        if owner is not None:
+            known.setdefault(owner["id"], []).append(g)
+        else:
+            new.setdefault((g["case"].split(".")[0], g["backend"], g["outcome"], g.get("exc")), []).append(g)
+    for f in findings:
+        if f["id"] in known:
+            v.known_finding(f"{f['id']}: {f['summary']} ({len(known[f['id']])} grid cases)")
+    for key, items in list(new.items())[:6]:
+        v.violation("grid-" + "-".join(str(k) for k in key), dict(kind="typed_grid_" + key[2], op=key[0], backend=key[1], exc=key[3], n_cases=len(items),
+                                                                    cases=items[:12], how="python -m harness.c12grid -v | grep <case>"))
+    return sum(len(x) for x in new.values()), dict(typed_grid_cases=len(recs), typed_grid_outcomes=hist,
+                                                   typed_grid_known={k: len(x) for k, x in known.items()})
+
+
 def run(tier, seed):
     return speccheck.run(PROP, tier, seed, ["general", "rowlevel", "agg", "window", "join", "union", "tall"], 300, 9000, also=("C01",),
-                         extra_oracle="oracle_c12",
+                         extra_oracle="oracle_c12", extra_stream=grid_stream,
                          assumptions=["expression-level soundness (typeOf e = t → every value of e fits t) is assembled from the per-operator value lemmas and "
                                       "the catalogue theorems by the correspondence, not proved as one induction over expressions",
-                                      "date / datetime / duration / decimal / list columns are outside the generated programs (casts to them are covered by C17)"])
+                                      "date / datetime columns occur in the typed operator grid only (every operator signature, harness/c12grid.py), not in the "
+                                      "generated multi-verb programs; casts to them are covered by C17"])
